@@ -18,7 +18,9 @@ CHECKS = {
              "of that severity. Callers are checked against callee contracts only.",
         note="Trusted: models of open/json.dump/pickle.loads and the stream protocol; Pickled.load/dumps contracts are assumed here and verified "
              "under C06/C14; the CLI exit-status clause is verified under the cli.main contract when listed in evidence.functions_under_contract; "
-             "that two separate runs over the same bytes give the same severity is C13.",
+             "that two separate runs over the same bytes give the same severity is C13. CLI face: cli.main is verified path by path (argparse "
+             "modelled): every stacked pickle analysed exactly once into the report, was_safe accumulates 'severity is LIKELY_SAFE', the loop is "
+             "never left early, exit status 0 iff was_safe; bounded companion replay/cli_diff.py compares exit status and JSON severities.",
         ref="§C10"),
     "C02": dict(
         text="Proof: loader.load is symbolically executed path by path against the statement: pickle.loads is reached only on paths whose "
@@ -158,6 +160,19 @@ CHECKS = {
              "every node, ast.unparse of a call starts with the callee name, str.rsplit/count enumerate dotted prefixes. The composition over "
              "opcode choice / memo / disposal / framing is the bounded companion replay/floor_diff.py (11.5k programs). One defect repaired.",
         ref="§C04"),
+    "C18": dict(
+        text="Proof over the real cli.main (argparse modelled from the add_argument calls of the working tree; every path of the function): "
+             "an out-of-range --inject-target returns non-zero and no pickle is written or edited; otherwise the pickles come from "
+             "stack[:target] and stack[target+1:], each written once, unedited, to the output buffer (per-iteration obligations), the target is "
+             "edited exactly once by insert_python_eval(args.inject, run_first=not run_last, use_output_as_unpickle_result=replace_result) "
+             "and then written once; in decompilation each Interpreter is built on the loop's pickle with first_variable_id = the previous "
+             "one's next_variable_id, result_variable = result<i>, and the variable counter never decreases (monotonicity verified for every "
+             "opcode run, step, run, to_ast, Trace.run; new_variable names _var<counter>).",
+        note="Composition to 'n pickles, only the target differs' uses Pickled.dump's contract and the injection helper's frame (argued); that "
+             "unedited pickles re-serialise to their input bytes and that the stack partitions the file is C06 (which also catches changes of "
+             "StackedPickle.load); what the injection does is C08. Bounded companion replay/cli_diff.py (492 command lines) checks the bytes, the "
+             "result names and variable reuse end to end.",
+        ref="§C18"),
 }
 NA_REASON = "check not built yet (work in progress; see DESIGN.md)"
 
